@@ -121,14 +121,19 @@ func tplSeqNext() int64 { return atomic.AddInt64(&tplSeq, 1) }
 // ParseReg parses src and registers it under a fresh key.
 func ParseReg(src []byte, keepFmt bool) (key string, o Obs) {
 	key = fmt.Sprintf("vh%d", atomic.AddInt64(&tplSeq, 1))
+	var dump []dyntpl.VerifNode
 	o = guarded(5*time.Second, func() ([]byte, error) {
 		tree, err := dyntpl.Parse(src, keepFmt)
 		if err != nil {
 			return nil, err
 		}
+		if pmRecord {
+			dump = dyntpl.VerifTree(tree)
+		}
 		dyntpl.RegisterTplKey(key, tree)
 		return nil, nil
 	})
+	pmObserve(src, keepFmt, o, dump)
 	return
 }
 
